@@ -52,7 +52,12 @@ class C16(Prop):
     budgets = {"quick": 300, "thorough": 6000}
 
     def cases(self, rng: random.Random, tier: str) -> Iterable[dict]:
+        forced = 3
         while True:
+            if forced or rng.random() < 0.05:
+                forced = max(0, forced - 1)
+                yield self._mapwarn_case(rng)
+                continue
             r = rng.random()
             async_only = False
             if r < 0.45:
@@ -108,6 +113,12 @@ class C16(Prop):
                         cfg["selectAsTuple"] = rng.random() < 0.5
                         cfg["selectAsSet"] = len(cfg["select"]) == 1 and rng.random() < 0.5
                         cfg["selectAs"] = rng.choice([None, None, "keys", "gen"])      # ... dict keys, a generator: names all the same
+                    if rng.random() < 0.08:
+                        # an EMPTY selection (a filter that matched nothing) is a selection: nothing is returned
+                        cfg["select"] = []
+                        cfg["selectAs"] = rng.choice([None, "keys", "gen"])
+                        cfg["selectAsTuple"] = rng.random() < 0.5
+                        cfg["selectAsSet"] = False
                     ops["rtselect"] = 1
             cfg["onMissing"] = rng.choice(["ignore", "warn", "error"])
             cfg["errMode"] = rng.choice(["raise", "continue"])
@@ -130,7 +141,33 @@ class C16(Prop):
                 pass
         return [[k, v] for k, v in vals.items()]
 
+    @staticmethod
+    def _mapwarn_case(rng: random.Random) -> dict:
+        """runner.map over a gated graph with a selection naming BOTH branches' outputs: every item leaves one of them unproduced, and the
+        on_missing policy applies to every item, not to the batch."""
+        k = rng.randint(1, 3)
+        nodes = [{"name": "src", "kind": "fn", "params": [["x", None]], "dataOuts": ["score"], "body": {"b": "sum", "k": 0}},
+                 {"name": "judge", "kind": "ifelse", "params": [["score", None]], "targets": ["approve", "reject"], "body": {"b": "lt", "k": k}, "defaultOpen": False},
+                 {"name": "approve", "kind": "fn", "params": [["score", None]], "dataOuts": ["approved"], "body": {"b": "tag", "t": "approve"}},
+                 {"name": "reject", "kind": "fn", "params": [["score", None]], "dataOuts": ["rejected"], "body": {"b": "tag", "t": "reject"}}]
+        rng.shuffle(nodes)
+        xs = [rng.randint(0, 4) for _ in range(rng.randint(2, 5))]
+        return {"kind": "mapwarn", "program": [{"name": "g0", "nodes": nodes, "bound": []}], "xs": xs, "known": [], "ops": {"map": 1},
+                "cfg": {"select": rng.choice([["approved", "rejected"], ["rejected", "approved"], ["approved"]]), "onMissing": rng.choice(["warn", "warn", "ignore"])},
+                "runner": rng.choice(["sync", "async"]), "k": rng.choice([None, 2])}
+
+    def _impl_mapwarn(self, case: dict) -> Any:
+        cfg = case["cfg"]
+        o = impl.map_case(case["program"], [["x", {"l": case["xs"]}]], ["x"], "zip", "raise", cfg, case["runner"],
+                          max_concurrency=case["k"] if case["runner"] == "async" else None)
+        singles = [impl.run_case(case["program"], None, [["x", x]], cfg, case["runner"]) for x in case["xs"]]
+        return {"status": "mapwarn", "map_warnings": o.get("missing_warnings", []), "raised": o.get("raised"),
+                "results": [r["values"] for r in o.get("results", [])], "single_warnings": sorted(w for s_ in singles for w in s_.get("missing_warnings", [])),
+                "single_values": [s_["values"] for s_ in singles], "calls": o.get("calls", []), "values": []}
+
     def impl(self, case: dict) -> Any:
+        if case.get("kind") == "mapwarn":
+            return self._impl_mapwarn(case)
         from .c08 import spec_obs
 
         env = Env()
@@ -158,6 +195,15 @@ class C16(Prop):
         return obs
 
     def oracle(self, case: dict, obs: Any) -> str | None:
+        if case.get("kind") == "mapwarn":
+            if obs["raised"] is not None:
+                return f"map over a gated graph with on_missing={case['cfg']['onMissing']!r} raised {obs['raised']}"
+            if obs["results"] != obs["single_values"]:
+                return f"map results {obs['results']} differ from the single runs {obs['single_values']}"
+            if obs["map_warnings"] != obs["single_warnings"]:
+                return (f"on_missing={case['cfg']['onMissing']!r}: the map issued the missing-output warnings {obs['map_warnings']}, the same items run one by one "
+                        f"issue {obs['single_warnings']}")
+            return None
         if obs["status"] == "build-error":
             return None if "select" in obs.get("detail", "") or "Select" in obs.get("detail", "") or "bind" in obs.get("detail", "") else f"configuration rejected: {obs['detail']}"
         program = case["program"]
@@ -239,6 +285,8 @@ class C16(Prop):
         return None
 
     def model(self, case: dict, driver: Any) -> Any:
+        if case.get("kind") == "mapwarn":
+            return None
         sel = case["cfg"].get("select")
         if sel is not None and sel != "**":
             s = driver.ask({"op": "specsel", "program": case["program"], "select": sel})
@@ -256,6 +304,8 @@ class C16(Prop):
         return m
 
     def compare(self, case: dict, i: Any, m: Any) -> str | None:
+        if case.get("kind") == "mapwarn":
+            return None      # warnings of a map are judged against the single runs of the same items (oracle)
         if i.get("invalid_select"):
             # the selection names a non-output: the model rejects it (build-error), the implementation must have rejected the run (oracle)
             return None if m["status"] == "build-error" else f"the model accepts the selection {case['cfg'].get('select')} that graph.select() rejects"
@@ -278,8 +328,14 @@ class C16(Prop):
         return {"ops": "+".join(sorted(case["ops"])) or "none", "status": obs.get("status"), "onMissing": case["cfg"]["onMissing"],
                 "runner": case["runner"], "error": (obs.get("error") or "")[:12]}
 
+    def expand_fixed(self, case: dict) -> list[dict]:
+        return [case]
+
     def signature(self, case: dict, obs: Any, why: str) -> str:
-        return "case:" + canonical_hash({"program": case["program"], "known": case["known"], "cfg": case["cfg"]})
+        key = {"program": case["program"], "known": case["known"], "cfg": case["cfg"]}
+        if "xs" in case:
+            key["xs"] = case["xs"]
+        return "case:" + canonical_hash(key)
 
     def sample(self, case: dict, obs: Any) -> Any:
         return {"program": case["program"], "cfg": case["cfg"], "runner": case["runner"]}
